@@ -113,7 +113,7 @@ def check_property(prop: str, tier: str, seed: int) -> int:
     for tpl in tpls:
         tpath = os.path.join(ROOT, "contracts", "verus", tpl)
         try:
-            asm = assemble(REPO, tpath)
+            asm = assemble(REPO, tpath, prop)
         except ExtractError as e:
             undecided.append("%s: %s" % (tpl, e))
             continue
